@@ -527,7 +527,32 @@ func (d *c12DB) faults(seed uint64, thorough bool) []*c12Fault {
 				if n > limit {
 					step = n / 200
 				}
+				cut := map[int64]bool{}
 				for l := int64(0); l < n; l += step {
+					cut[l] = true
+				}
+				if n > limit {
+					// large files: every block boundary and every record start/end, each with its neighbours
+					for b := int64(kvh.BlockSize); b < n+kvh.BlockSize; b += kvh.BlockSize {
+						for _, dl := range []int64{-8, -7, -1, 0, 1, 7, 8} {
+							cut[b+dl] = true
+						}
+					}
+					for _, s := range d.recEnds[rel] {
+						for _, dl := range []int64{-1, 0, 1} {
+							cut[s.start+dl] = true
+							cut[s.end+dl] = true
+						}
+					}
+				}
+				var cuts []int64
+				for l := range cut {
+					if l >= 0 && l < n {
+						cuts = append(cuts, l)
+					}
+				}
+				sort.Slice(cuts, func(i, j int) bool { return cuts[i] < cuts[j] })
+				for _, l := range cuts {
 					out = append(out, &c12Fault{Mode: mode, File: rel, Kind: "truncate", Off: l})
 				}
 				for i, l := range []int{1, 6, 7, 8, 40, kvh.BlockSize} {
@@ -563,8 +588,20 @@ func c12Run(t *rapid.T, st *kvh.Stats) {
 	bigAt := 1 + kvh.U(t, 2, "bigat")
 	bigBlocks := 1 + kvh.U(t, 2, "bigblocks")
 	i := 0
+	// the database is closed right after a Merge: the next Open adopts it and takes the index from the hint file
+	finalMerge := kvh.Pct(t, 25, "finalmerge")
+	if kvh.Pct(t, 20, "deepshape") {
+		// a finished, not yet adopted merge whose output spans several files, one of them holding a multi-block
+		// record: the adopting Open takes the positions in the lower rewritten files from the hint file unchecked
+		withBig, finalMerge = true, true
+		c.Opt.FileSize = kvh.Pick(t, []int64{200, 1000, 4096}, "deepsize")
+	}
 	d, f := buildC12DB(c, func(r *kvh.Runner) (kvh.Op, bool) {
 		if i >= n {
+			if finalMerge {
+				finalMerge = false
+				return kvh.Op{K: "merge"}, true
+			}
 			return kvh.Op{}, false
 		}
 		i++
@@ -637,6 +674,21 @@ func c12Run(t *rapid.T, st *kvh.Stats) {
 	}
 	if withBig {
 		st.Label("db-with-multi-chunk-value")
+	}
+	pendingData, pendingBig := 0, false
+	for rel, b := range d.files {
+		if strings.HasPrefix(rel, "db-merge/") && strings.HasSuffix(rel, ".data") {
+			pendingData++
+			if len(b) > kvh.BlockSize {
+				pendingBig = true
+			}
+		}
+	}
+	if pendingData >= 2 {
+		st.Label("pending-merge-with->=2-rewritten-files")
+		if pendingBig {
+			st.Label("pending-merge-with->=2-rewritten-files-one-multi-block")
+		}
 	}
 	if st.WantSample() {
 		sizes := map[string]int{}
